@@ -9,7 +9,7 @@ CLAIMS = {
    text="Machine-checked iff-theorems (Coq) over all binary64/int64 values: each constructor model accepts exactly the documented domain (NaN rejected). The models are executable; the extracted OCaml is compared with the real constructors on boundary-exhaustive and seeded random inputs on every run, and every implementation answer is also judged against the documented domain.",
    note="Model: coq/theories/Pure/Config.v, Retry.v (hand-written). Tie: differential run against /repo (harness/cmd/pure vs extracted OCaml). Real-number reading via Flocq B2R: standard-library classical-reals axioms. Error message texts not modelled."),
  "C05": dict(category="proof", ref="5.5", technique="Coq proof + executable-model correspondence",
-   text="Coq theorems for every parameter, attempt number and random-source outcome: fixed, random range, limit, jitter pass-through / band / never-negative / saturation, stop-stays-stop, exponential value and upper clamp. The float facts (ordering of the two saturated jitter products, exponential never below initial for Pow > 1, monotone in the Pow oracle) are proved through Flocq's real-number semantics (Properties/C05Float.v).",
+   text="Coq theorems for every parameter, attempt number and random-source outcome: fixed, random range, limit, jitter pass-through / band / never-negative / saturation, stop-stays-stop, exponential value and upper clamp. The float facts (ordering of the two saturated jitter products, exponential never below initial for Pow > 1, monotone in the Pow oracle) are proved through Flocq's real-number semantics (Properties/C05Float.v). Whole layer stacks (C05_stack_envelope, C05_stack_stop_iff, by induction over any nesting of jitter and limit layers the builder accepts): the call returns, the result is -1 exactly when a limit layer has been reached and otherwise lies in [0, MaxInt64].",
    note="Model: Pure/Retry.v (hand-written; random source = explicit word stream; math.Pow = oracle value supplied by the harness from Go). Tie: differential run against /repo with a deterministic fastrand stub. Axiom-free."),
  "C18": dict(category="proof", ref="5.18", technique="Coq proof + executable-model correspondence",
    text="Coq theorems for all byte strings: the parser model never slices/indexes out of range (no panic), accepts exactly key=fields with documented defaults and decimal-int64 / float fields, returns exactly the direct constructor's value, rejects everything else with an error; layers fold in insertion order. All builder call sequences: the BackoffBuilder is modelled as a state machine (Pure/Builder.v) and after ANY sequence of BaseBackoffSpec / BaseBackoff / WithLimit / WithJitter / WithJitterBound / Build calls a Build returns what the calls so far determine (last explicit base, else the LAST specification, layers in order: C18_builder_call_sequences), building again gives the same, no sequence panics. Model compared with the real builder on grammar-generated, mutated and raw-byte strings and on random builder call sequences each run.",
